@@ -55,7 +55,7 @@ def run(ctx):
     ev = Evaluator(repo, inline_depth=2, inline_filter=lambda f: f is not fi and f.module is fi.module and (f.cls is None or f.cls is fi.cls))
     fq = ctx.fq(fi)
     generic.loops_run_to_end(ctx, "C11-D1k every selected payload and dependency is visited", fi, {"add_cache_slot", "fill_cache_from_envelope_data", "pop"},
-                             "selected payloads / dependency envelopes", floor=2)
+                             "selected payloads / dependency envelopes", floor=0)
     outs = ev.outcomes(fi)
     rets = [o for o in outs if o.kind == "return"]
     if not rets:
